@@ -529,17 +529,22 @@ def r11_keep_comparison_total(idx, r):
               msg="array-valued kept parameters are compared with a shape-safe predicate (np.array_equal)")
 
 
+def link_scan_rule(idx, r):
+    """shared with C03 (R03.13): the routine that lifts dimension links out of the parameters scans the complete DIMENSION_NAMES table"""
+    f = idx.method("armi.reactor.components.component.Component", "_getLinkedDimsAndValues")
+    loop = next((x for x in walk_local(f.node) if isinstance(x, ast.For)), None)
+    r.require(loop is not None and norm(loop.iter) == "self.DIMENSION_NAMES", "_getLinkedDimsAndValues:scans-every-dimension", f, node=loop,
+              msg=f"links are looked for in `{norm(loop.iter) if loop is not None else '?'}` only: a linked dimension outside that table (e.g. `mult: fuel.mult`) stays in the parameters, is pickled with "
+                  "a copy of the neighbour, and after any retainState scope follows that dead copy instead of the live neighbour")
+
+
 def r12_links_and_flags(idx, r):
     """(a) ANY dimension of a component can hold a link to a neighbour (mult, modArea included): the routine that lifts links out of the
     parameters before they are pickled scans the complete DIMENSION_NAMES table - a linked dimension left in place is pickled together with
     a ghost copy of the neighbour and after the scope points at that copy.  (b) the SINCE_BACKUP bit of a collection's `assigned` word is
     what restoreBackup reads to honour the keep-set: only the backup machinery itself clears it; every other `&= ~mask` names the one bit
     it is about."""
-    f = idx.method("armi.reactor.components.component.Component", "_getLinkedDimsAndValues")
-    loop = next((x for x in walk_local(f.node) if isinstance(x, ast.For)), None)
-    r.require(loop is not None and norm(loop.iter) == "self.DIMENSION_NAMES", "_getLinkedDimsAndValues:scans-every-dimension", f, node=loop,
-              msg=f"links are looked for in `{norm(loop.iter) if loop is not None else '?'}` only: a linked dimension outside that table (e.g. `mult: fuel.mult`) stays in the parameters, is pickled with "
-                  "a copy of the neighbour, and after any retainState scope follows that dead copy instead of the live neighbour")
+    link_scan_rule(idx, r)
     n = 0
     for m in idx.modules.values():
         if not m.name.startswith("armi.") or ".tests" in m.name:
